@@ -207,6 +207,9 @@ func (e *SpecEnv) scalar(v SV, t types.Type) (Term, types.Type) {
 		if x.F != nil && len(x.Free) == 0 {
 			return e.c.funcRef(x.F), t
 		}
+		if x.CID.Valid() {
+			return x.CID, t
+		}
 	}
 	e.fail("value of type %v is not a scalar in a spec expression (%T)", t, v)
 	return Term{}, nil
